@@ -151,6 +151,92 @@ pub fn loader_module(config_text: &str, path: &str, files: &BTreeMap<String, Str
     h.join().unwrap_or_else(|_| Err("loader thread panicked".into()))
 }
 
+
+/// The loader modules of several files produced by ONE loader instance, the way a bundler drives it: a first
+/// configuration and a first emit precede the configuration under test (a process that serves two projects), and the
+/// tasks of the files overlap (all initiated first, then completed one by one, a late file initiated while earlier ones
+/// are still in flight). Each module must still be the one of its own file under the configuration loaded last.
+pub fn loader_session(first_config: &str, config_text: &str, paths: &[String], files: &BTreeMap<String, String>) -> Vec<Result<String, String>> {
+    let (first_config, config_text, paths, files) = (first_config.to_string(), config_text.to_string(), paths.to_vec(), files.clone());
+    let n = paths.len();
+    let h = std::thread::spawn(move || -> Vec<Result<String, String>> {
+        use crate::props::c19::abi;
+        abi::init();
+        let complete = |id: usize| -> Result<String, String> {
+            for _ in 0..64 {
+                if !loader_shim::get_required_files(id) {
+                    let e = abi::read_result();
+                    loader_shim::free_task(id);
+                    return Err(format!("get_required_files failed: {e}"));
+                }
+                let req = abi::read_result();
+                let req: Vec<&str> = req.split('\n').filter(|s| !s.is_empty()).collect();
+                if req.is_empty() {
+                    break;
+                }
+                for r in req {
+                    let Some(t) = files.get(&crate::refimport::resolve_path("/", r)) else {
+                        loader_shim::free_task(id);
+                        return Err(format!("loader requires {r:?}, which is not a file of the project"));
+                    };
+                    abi::load(id, r, t);
+                }
+            }
+            let ok = loader_shim::emit_js(id);
+            let r = abi::read_result();
+            loader_shim::free_task(id);
+            if ok { Ok(r) } else { Err(format!("emit_js failed: {r}")) }
+        };
+        // an earlier project in the same process
+        if abi::config(&first_config) {
+            if let Some(p0) = paths.first() {
+                let id = abi::initiate(p0, &files[p0]);
+                if id != 0 {
+                    let _ = complete(id);
+                } else {
+                    let _ = abi::read_result();
+                }
+            }
+        }
+        if !abi::config(&config_text) {
+            return (0..paths.len()).map(|_| Err("load_config refused the configuration".to_string())).collect();
+        }
+        // overlapping tasks: initiate all but the last, complete the first, initiate the last, complete the rest
+        let mut ids: Vec<Option<usize>> = vec![None; paths.len()];
+        let mut out: Vec<Result<String, String>> = (0..paths.len()).map(|_| Err("not run".to_string())).collect();
+        let start = |i: usize, ids: &mut Vec<Option<usize>>, out: &mut Vec<Result<String, String>>| {
+            let id = abi::initiate(&paths[i], &files[&paths[i]]);
+            if id == 0 {
+                out[i] = Err(format!("initiate_task failed: {}", abi::read_result()));
+            } else {
+                ids[i] = Some(id);
+            }
+        };
+        let last = paths.len().saturating_sub(1);
+        for i in 0..last {
+            start(i, &mut ids, &mut out);
+        }
+        if let Some(id) = ids.first().copied().flatten() {
+            out[0] = complete(id);
+        }
+        if last > 0 || paths.len() == 1 {
+            start(last, &mut ids, &mut out);
+        }
+        for i in 1..paths.len() {
+            if let Some(id) = ids[i] {
+                out[i] = complete(id);
+            }
+        }
+        if paths.len() == 1 {
+            if let Some(id) = ids[0] {
+                out[0] = complete(id);
+            }
+        }
+        out
+    });
+    h.join().unwrap_or_else(|_| (0..n).map(|_| Err("loader thread panicked".to_string())).collect())
+}
+
 pub struct CaseStats {
     pub files: u64,
     pub declared: u64,
@@ -158,8 +244,8 @@ pub struct CaseStats {
     pub associated: u64,
 }
 
-pub fn check_case(ctx: &Ctx, n: u64, pv: &ProjView, config_text: &str) -> Option<(Vec<Violation>, CaseStats)> {
-    let replay = json!({"property":"C14","kind":"project","config":config_text,"view":crate::props::maps::view_json(pv)});
+pub fn check_case(ctx: &Ctx, n: u64, pv: &ProjView, config_text: &str, shared: bool) -> Option<(Vec<Violation>, CaseStats)> {
+    let replay = json!({"property":"C14","kind":"project","config":config_text,"shared":shared,"view":crate::props::maps::view_json(pv)});
     let mut out: Vec<(String, String)> = vec![];
     let mut st = CaseStats { files: 0, declared: 0, defaults: 0, associated: 0 };
     let dir = cli::scratch_dir(&ctx.out, "c14", n);
@@ -179,7 +265,16 @@ pub fn check_case(ctx: &Ctx, n: u64, pv: &ProjView, config_text: &str) -> Option
     for (p, t) in &pv.files {
         by_abs.insert(abs(p), t.clone());
     }
-    for op in &pv.op_paths {
+    // every other case drives all files through one long-lived loader instance (an earlier project's configuration
+    // first, overlapping tasks); the others use a fresh instance per file
+    let session: Option<Vec<Result<String, String>>> = if shared {
+        let paths: Vec<String> = pv.op_paths.iter().map(|p| abs(p)).collect();
+        Some(loader_session("schema: ./schema.graphql\n", config_text, &paths, &by_abs))
+    } else {
+        None
+    };
+    let route = if session.is_some() { "shared-instance" } else { "fresh-instance" };
+    for (op_i, op) in pv.op_paths.iter().enumerate() {
         let stem = op.strip_suffix(".graphql").unwrap_or(op);
         let decl_path = abs(&format!("{stem}.{}", pv.decl_ext));
         let Ok(decl) = std::fs::read_to_string(&decl_path) else {
@@ -190,10 +285,14 @@ pub fn check_case(ctx: &Ctx, n: u64, pv: &ProjView, config_text: &str) -> Option
         let Ok(src_doc) = refparse::parse_exec(src_text) else { continue };
         st.files += 1;
         let (locals, exports) = declared_value_exports(&decl);
-        let js = match loader_module(config_text, &abs(op), &by_abs) {
+        let js_res = match &session {
+            Some(rs) => rs[op_i].clone(),
+            None => loader_module(config_text, &abs(op), &by_abs),
+        };
+        let js = match js_res {
             Ok(js) => js,
             Err(e) => {
-                out.push(("C14|loader-could-not-emit".into(), format!("{op}: {e}")));
+                out.push((format!("C14|loader-could-not-emit|{route}"), format!("{op}: {e}")));
                 continue;
             }
         };
@@ -272,7 +371,7 @@ pub fn run(ctx: &Ctx, rep: &mut Report) {
         let cfg_text = proj.files.iter().find(|(p, _)| p.contains("graphql.config")).map(|(_, t)| t.clone()).unwrap_or_default();
         rep.trace_case(|| json!({"property":"C14","kind":"project","config":cfg_text,"view":crate::props::maps::view_json(&pv)}));
         rep.eval();
-        let Some((vs, st)) = check_case(ctx, case, &pv, &cfg_text) else {
+        let Some((vs, st)) = check_case(ctx, case, &pv, &cfg_text, case % 2 == 1) else {
             rep.count("projects_where_generate_did_not_succeed");
             continue;
         };
@@ -308,7 +407,7 @@ pub fn run(ctx: &Ctx, rep: &mut Report) {
 
 pub fn replay(case: &Value, ctx: &Ctx) -> Vec<Violation> {
     match ProjView::from_json(&case["view"]) {
-        Some(pv) => check_case(ctx, 0, &pv, case["config"].as_str().unwrap_or("")).map(|x| x.0).unwrap_or_default(),
+        Some(pv) => check_case(ctx, 0, &pv, case["config"].as_str().unwrap_or(""), case["shared"].as_bool().unwrap_or(false)).map(|x| x.0).unwrap_or_default(),
         None => vec![],
     }
 }
